@@ -77,6 +77,20 @@ CHECKS['C06'] = dict(
     technique="Coq theorem on leaf terms + byte-exact printer correspondence + solver-in-the-loop oracle (parse, ground, telingo)",
     design="6.C06")
 
+CHECKS['C18'] = dict(
+    text="Gen/MainSkeleton.v is regenerated from cnl2asp.py:main on every run (Python ast -> a small exception calculus: calls classified "
+         "API / theorem-total / assumed / file-system / total, tests, try/except with handler classes in order, return, raise, the open of "
+         "the output file). Coq theorems over that term, for EVERY assignment of outcomes (normal or any Exception subclass) to every "
+         "call that may raise and every value of every test: main terminates normally (C18_main_total, by a syntactic guard proved sound "
+         "by mutual structural induction), the output file is never opened when compile() raises or in -c/--symbols/--cnl2json mode "
+         "(C18_no_partial_output, C18_no_output_in_query_modes), the parser diagnostic is built by a total function and cites line and "
+         "column first. Tie: translator (fail-closed) + function-level correspondence of ParserError text; oracle: the real command line "
+         "run as a subprocess on valid, damaged and arbitrary inputs with flags and output file, diagnostic position compared with Lark's.",
+    note="Trusted: Coq kernel; the ast translator and its call classification (listed in Gen/MainSkeleton.v: main_sites); argparse, interpreter exit, "
+         "file system not modelled; -o and --debug fixed to false.",
+    technique="Coq proof over a control skeleton regenerated from the source (guard soundness by mutual induction) + subprocess oracle",
+    design="6.C18")
+
 NOT_YET = {}
 
 
